@@ -550,7 +550,7 @@ def run(tier, replay=None):
     report = common.Report("C01", tier)
     if replay:
         return do_replay(replay)
-    proof = common.prove(report, "C01", ["varconsts", "jis8"], extra_targets=["Run/C01Run.vo"])
+    proof = common.prove(report, "C01", ["varconsts", "jis8", "pyvarhdr"], extra_targets=["Run/C01Run.vo"])
     ok, log = common.coq_make(["Run/C01Run.vo"])
     if not ok:
         report.violation({"kind": "broken-obligation", "obligation": "model Run/C01Run.vo does not build against the regenerated constants",
